@@ -46,7 +46,7 @@ def register_all(reg):
         "Empty lists, None/bool/'' values and dicts nested deeper than one level are outside the alphabet. " + E2_NOTE, "DESIGN.md 3 C29")
 
     reg("C12", "seqx", "exploration", "bounded-exhaustive input enumeration vs dict reference model",
-        "All matrix relations over 0-3 (quick) / 0-4 (thorough) small-domain variables with tables from {0,1,-3,2.5,2^31,+-2^40,inf} (full/two-entry/one-hot families): every set_value (list/dict/reversed dict), every projection (each variable, min/max) and every join over 20-24 scope pairs is read back on every assignment against Python sum/min/max.",
+        "All matrix relations over 0-3 (quick) / 0-4 (thorough) small-domain variables with tables from {0,1,-3,2.5,2^31,+-2^40,inf} (full/two-entry/one-hot families; projections also over all two-valued tables of large near-equal entries, compared exactly): every set_value (list/dict/reversed dict), every projection (each variable, min/max) and every join over 20-24 scope pairs is read back on every assignment against Python sum/min/max.",
         "Dimension order of join/projection results is not judged (scopes are sets in the property); operands are NAryMatrixRelation only. " + E2_NOTE, "DESIGN.md 3 C12")
     reg("C30", "seqx", "exploration", "bounded-exhaustive generator arguments with every random answer enumerated (injected random graphs, scripted draws)",
         "Graph-colouring, Ising and scenario generators are run on every small argument combination with all random graphs on <=4 nodes, all Barabasi-Albert/shuffle answers, scripted randint/uniform vectors and every random.sample answer injected; constraints<->edges, hard/soft tables, Ising form agreement, hosting-exactly-once and removal bookkeeping are checked against a reference model.",
@@ -103,11 +103,11 @@ def register_all(reg):
         NETX_NOTE, "DESIGN.md 3 C08")
 
     reg("C05", "netx", "model_checking", "explicit-state search of the real (A-)Max-Sum computations over a virtual FIFO network (all interleavings for small instances, canonical schedules beyond; state caching) x unique-optimum instance family",
-        "On acyclic instances with a unique brute-force optimum, the real factor and variable computations of synchronous Max-Sum (round horizon) and A-Max-Sum (until quiescence; default and leafs_vars start) with damping 0 / noise 0 are explored; every maximal path must end on the unique optimum.",
+        "On acyclic instances with a unique brute-force optimum, the real factor and variable computations of synchronous Max-Sum (round horizon) and A-Max-Sum (until quiescence; default and leafs_vars start) with damping 0 / noise 0 are explored; plus a wide table sweep (4-variable chain and star, every triple of a 17-table menu; thorough also the 5-chain) with one in-place canonical execution per instance and algorithm; every maximal path must end on the unique optimum.",
         NETX_NOTE + " Instances beyond the pair (and a slice of the 3-chains) use 4 canonical schedules instead of all interleavings.", "DESIGN.md 3 C05")
 
-    reg("C09", "netx", "model_checking", "explicit-state search of the real DBA computations over a virtual FIFO network (all interleavings, start orders, initial values, tie picks; state caching)",
-        "On small CSPs (all {0,infinity} pair tables, graph colouring on chain / triangle, 2-3 colours, max_distance at or above the diameter) every reachable state up to a cycle horizon is visited; inside every finished() notification the values held by all computations must violate no constraint.",
+    reg("C09", "netx", "model_checking", "explicit-state search of the real DBA computations over a virtual FIFO network (all interleavings, start orders, initial values, tie picks; state caching; delay-bounded for the 5-cycle)",
+        "On small CSPs (all {0,infinity} pair tables, graph colouring on chain / triangle, 2-3 colours, max_distance at or above the diameter) every reachable state up to a cycle horizon is visited; the 5-cycle (max_distance = diameter) is explored delay-bounded: a canonical schedule plus every execution with <=2 departures from it, for every initial assignment; inside every finished() notification the values held by all computations must violate no constraint.",
         NETX_NOTE + " Safety property up to a horizon of 3-6 cycles per computation.", "DESIGN.md 3 C09")
 
     reg("C10", "netx", "model_checking", "explicit-state search of the real computations of every shipped algorithm over a virtual FIFO network with a value_selection / current_value monitor",
